@@ -20,6 +20,7 @@ Norm(ev) == [op    |-> [op |-> ev.op.op, from |-> ev.op.from, to |-> ev.op.to, s
                         auth |-> ToSet(ev.op.auth), dt |-> ev.op.dt],
              now   |-> ev.now, res |-> ev.res, obs |-> ev.obs,
              calls |-> [i \in 1..Len(ev.calls) |-> ev.calls[i]],
+             evs   |-> [i \in 1..Len(ev.evs) |-> ev.evs[i]],
              run   |-> ev.run, i |-> ev.i]
 
 Init == l = 1 /\ g = GInit({}) /\ dead = FALSE /\ cnt = [m \in Monitors |-> 0]
